@@ -32,8 +32,8 @@ func hashPick(t *rapid.T, label string, n int) int {
 	return vk.NewSplitMix(rapid.Uint64().Draw(t, label)).Intn(n)
 }
 
-// drawNbs draws cnt reduced block sizes in [2,hi] (hashed uniform, the first
-// one biased to values that do not divide 32) and as many remainders.
+// drawNbs draws cnt reduced block sizes in [2,hi] (hashed uniform) and as many
+// remainders.
 func drawNbs(t *rapid.T, cnt, hi int) (nbs, rems []int) {
 	for i := 0; i < cnt; i++ {
 		nbs = append(nbs, 2+hashPick(t, fmt.Sprintf("nb%d", i), hi-1))
@@ -114,7 +114,7 @@ func genReflectors(rows bool, nq, k, tauZero int, r *vk.SplitMix) (a dm, tau []f
 			vtv += v * v
 		}
 		tau[i] = 2 / vtv
-		if tauZero > 0 && i%tauZero == tauZero-1 {
+		if i == nq-1 || tauZero > 0 && i%tauZero == tauZero-1 { // Dlarfg returns tau = 0 for a vector of length 1
 			tau[i] = 0
 		}
 	}
@@ -388,62 +388,67 @@ func checkFactLw(c factLwCase) *vk.Failure {
 		return nil // Dorgr2 has no workspace length
 	}
 
-	// Generator with reduced block sizes: all k reflectors, the full set of
-	// columns (QR, QL) or rows (LQ) of the factored matrix.
+	// Generator with reduced block sizes: all k reflectors; Q is m x min(m,n)
+	// (QR), min(m,n) x n (LQ) or m x n (QL, m >= n).
+	qr, qc := m, n
 	var want dm
 	var gname string
 	switch kind {
 	case kindQR:
-		gname = "Dorgqr"
-		want = newDM(m, n)
-		for i := 0; i < min(m, n); i++ {
+		gname, qc = "Dorgqr", k
+		want = newDM(qr, qc)
+		for i := 0; i < qc; i++ {
 			want.set(i, i, 1)
 		}
 		applyQLeft(seq, false, want)
 	case kindLQ:
-		gname = "Dorglq"
-		want = newDM(m, n)
-		for i := 0; i < min(m, n); i++ {
+		gname, qr = "Dorglq", k
+		want = newDM(qr, qc)
+		for i := 0; i < qr; i++ {
 			want.set(i, i, 1)
 		}
 		applyQRight(seq, false, want)
 	case kindQL:
 		gname = "Dorgql"
-		want = newDM(m, n)
-		for j := 0; j < n; j++ {
+		want = newDM(qr, qc)
+		for j := 0; j < qc; j++ {
 			want.set(m-n+j, j, 1)
 		}
 		applyQLeft(seq, false, want)
 	}
-	if kind == kindQR && m < n || kind == kindLQ && m > n {
-		return nil // Dorgqr needs m >= n, Dorglq n >= m
+	ldq := max(1, qc) + c.PadA
+	q0 := newPmat("a", qr, qc, ldq, post, pre, trim)
+	for i := 0; i < qr; i++ {
+		for j := 0; j < qc; j++ {
+			q0.set(i, j, fact.at(i, j))
+		}
 	}
 	tauv := newPvec("tau", k, 1, 1, true)
 	copy(tauv.sl(), tauMain)
 	tsnap := tauv.snapshot()
-	gminW := max(1, n)
+	gminW := max(1, qc)
 	if kind == kindLQ {
-		gminW = max(1, m)
+		gminW = max(1, qr)
 	}
 	run := func(abuf, work []float64, lwork int) {
 		switch kind {
 		case kindQR:
-			impl.Dorgqr(m, n, k, abuf, lda, tauv.sl(), work, lwork)
+			impl.Dorgqr(qr, qc, k, abuf, ldq, tauv.sl(), work, lwork)
 		case kindLQ:
-			impl.Dorglq(m, n, k, abuf, lda, tauv.sl(), work, lwork)
+			impl.Dorglq(qr, qc, k, abuf, ldq, tauv.sl(), work, lwork)
 		case kindQL:
-			impl.Dorgql(m, n, k, abuf, lda, tauv.sl(), work, lwork)
+			impl.Dorgql(qr, qc, k, abuf, ldq, tauv.sl(), work, lwork)
 		}
 	}
-	call := fmt.Sprintf("%s(m=%d,n=%d,k=%d,lda=%d)", gname, m, n, k, lda)
-	g := fact.clone()
+	call := fmt.Sprintf("%s(m=%d,n=%d,k=%d,lda=%d)", gname, qr, qc, k, ldq)
+	g := q0.clone()
 	q, fl := wsQuery(call, gminW, func(w []float64) { run(g.sl(), w, -1) }, g, tauv)
 	if fl != nil {
 		return fl
 	}
-	tol := orthTol(m, n) * math.Sqrt(float64(max(1, k)))
+	tol := orthTol(qr, qc) * math.Sqrt(float64(max(1, k)))
 	for li, lw := range reducedLworks(c, 3, gminW, gminW, q, false) {
-		g := fact.clone()
+		g := q0.clone()
 		w := newWork(lw, c.LwK%2)
 		callw := fmt.Sprintf("%s lwork=%d (minimum %d, query %d) [block size lwork/%d = %d]", call, lw, gminW, q, gminW, lw/gminW)
 		vk.Class("fact-lwork:" + gname + ":reduced-nb")
@@ -473,7 +478,7 @@ func checkFactLw(c factLwCase) *vk.Failure {
 // checkGetriLw: Dgetri with reduced block sizes (n > 64), oracle of lu_test.go:
 // |X (P L U) - I| <= cwBound(n,3) |X| (P |L||U|).
 func checkGetriLw(c factLwCase) *vk.Failure {
-	n := 65 + (c.M-129)%64 // 65..128+
+	n := 65 + max(0, c.M-129)%64 // 65..128
 	r := vk.NewSplitMix(c.Seed)
 	cls := clsGauss
 	if c.LwK%3 == 0 {
